@@ -4,11 +4,11 @@ package main
 
 import (
 	"fmt"
-	"os"
-	"runtime/debug"
 	"go/ast"
 	"go/token"
 	"go/types"
+	"os"
+	"runtime/debug"
 	"strconv"
 	"strings"
 )
